@@ -993,6 +993,22 @@ func (it *Interp) step(i int, op *Op) {
 			it.step(i, &o)
 		}
 
+	case "xbyzdep":
+		// macro: a batch waits for its execution; a deposit arrives on that chain and the Byzantine validator is the first to
+		// report it - truthfully, except for an external height far in the future; the honest validators follow; then the
+		// external chain executes the waiting batch (its real clock has not moved), and time passes on the hub
+		big3 := new(big.Int).Mul(bigOf(op.A), big.NewInt(3)).String() // the sender owns enough first (hub users may own nothing yet)
+		for _, o := range []Op{{K: "deposit", U: op.U, C: op.C, D: op.D, A: big3, T: 0}, {K: "block", T: 5}, {K: "block", T: 5},
+			{K: "send", U: op.U, C: op.C, D: op.D, A: op.A, F: op.F, R: op.R}, {K: "reqbatch", C: op.C, D: op.D}, {K: "block", T: 5},
+			{K: "deposit", U: op.U, C: op.C, D: op.D, A: op.A, T: 1}, {K: "byz", C: op.C, N: 6}, {K: "relay", C: op.C, N: 100, R: 1}, {K: "block", T: 5}, {K: "block", T: 5},
+			{K: "exec", C: op.C, R: op.R, A: "1", T: 0}, {K: "block", T: 5}, {K: "block", T: op.T}, {K: "block", T: 5}} {
+			if it.Failed() {
+				break
+			}
+			o := o
+			it.step(i, &o)
+		}
+
 	case "xwhale":
 		// macro: values at the top of the 256-bit range meet the sums the blockers compute.
 		// variant 0: two bursts of sends whose fees, in the token's external units, add up to more than 2^256 while a
